@@ -40,3 +40,6 @@ impl vstd::std_specs::convert::FromSpecImpl<std::string::FromUtf8Error> for Erro
 impl From<std::string::FromUtf8Error> for Error {
     fn from(error: std::string::FromUtf8Error) -> (r: Self) { Self::UTF8ConversionError(error) }
 }
+
+/// `From<io::Error> for Error` as a function item, for the explicit form of `?` (rewrite R15)
+pub fn verr_from_io(e: std::io::Error) -> (r: Error) ensures r == Error::IOError(e) { Error::IOError(e) }
